@@ -99,3 +99,21 @@ def model_floats(model, names, default=None):
             v = default.get(n) if default else 0.0
         out[n] = float(v)
     return out
+
+
+def uf_callable(model, name, default=1.0):
+    """A concrete function agreeing with the solver's interpretation of an uninterpreted function at
+    the argument tuples that occur in the model (nearest neighbour elsewhere)."""
+    entries = [([float(a) for a in args], float(v)) for args, v in (model.get("__uf__", {}) or {}).get(name, [])]
+
+    def f(*q):
+        import numpy as np
+        if not entries:
+            return default
+        def one(*s):
+            best = min(entries, key=lambda e: sum((a - float(b)) ** 2 for a, b in zip(e[0], s)))
+            return best[1]
+        if any(hasattr(x, "__len__") for x in q):
+            return np.vectorize(one)(*q)
+        return one(*q)
+    return f
